@@ -147,6 +147,15 @@ def cores(repo):
             doc="C04/C20: what a named-paths group's results say as a whole (`ResultsManager.is_valid`, `has_lines`): loops over the results "
                 "`get_named_results` returns — an object list of the world; `.is_valid`, `.lines` are fields of the elements."),
          [("ResultsManager", "is_valid"), ("ResultsManager", "has_lines")]),
+        (py2lean.Core(
+            repo, "Identity",
+            [("csvpath/csvpath.py", "CsvPath", ["identity"])],
+            heap=True,
+            ignore=LOGGING,
+            dicts={"self.metadata"},
+            doc="C12: the identity of a csvpath (`CsvPath.identity`): id > Id > ID > name > Name > NAME among the fields of the outer comment "
+                "(`self.metadata` is a dict with constant keys: an absent key reads as `KeyError`)."),
+         [("CsvPath", "identity")]),
     ]
 
 
